@@ -22,6 +22,9 @@ ID = "C20"
 OPT = U.pyvaporation.optimizer.optimizer
 
 
+_NR = 1.234567891e-9  # no composition of the world is a round decimal (an in-place 'clean-up' of a caller's object must show)
+
+
 def build_world():
     mix = U.Mixtures.H2O_EtOH
     syn = U.get_mixture("S2")
@@ -33,22 +36,23 @@ def build_world():
     pv = U.Pervaporation(membrane=mem, mixture=mix)
     pv_syn = U.Pervaporation(membrane=mem_syn, mixture=syn)
     conds = {
-        "vac": U.make_conditions(mix, 0.05, 333.15, 50.0, 0.15, "weight", "vac", "none"),
-        "T": U.make_conditions(mix, 0.05, 333.15, 50.0, 0.2, "molar", ("T", -25.0), "none"),
-        "p_prog": U.make_conditions(mix, 0.05, 333.15, 50.0, 0.15, "weight", ("p", 0.5), "poly"),
-        "syn": U.make_conditions(syn, 0.05, 333.15, 50.0, 0.3, "weight", "vac", "none"),
-        "log": U.make_conditions(mix, 0.05, 333.15, 50.0, 0.15, "weight", "vac", "log"),
-        "exp": U.make_conditions(mix, 0.05, 340.0, 50.0, 0.25, "molar", ("T", -25.0), "exp3"),
+        "vac": U.make_conditions(mix, 0.05, 333.15, 50.0, 0.15 + _NR, "weight", "vac", "none"),
+        "T": U.make_conditions(mix, 0.05, 333.15, 50.0, 0.2 + _NR, "molar", ("T", -25.0), "none"),
+        "p_prog": U.make_conditions(mix, 0.05, 333.15, 50.0, 1.0 / 7.0, "weight", ("p", 0.5), "poly"),
+        "syn": U.make_conditions(syn, 0.05, 333.15, 50.0, 0.3 + _NR, "weight", "vac", "none"),
+        "log": U.make_conditions(mix, 0.05, 333.15, 50.0, 0.15 + _NR, "weight", "vac", "log"),
+        "exp": U.make_conditions(mix, 0.05, 340.0, 50.0, 0.25 + _NR, "molar", ("T", -25.0), "exp3"),
     }
     meas = {
         # built from a throw-away copy of the set: no library call may touch a world object while the world is being built
         "first": OPT.Measurements.from_diffusion_curves_first(U.make_curve_set(mix, law="lawA", temps=(343.15, 313.15), name="scratch")),
         "second": OPT.Measurements(data=[OPT.Measurement(x=x, t=333.15, p=U.law_value("lawB", 1, x, 333.15)) for x in (0.1, 0.3, 0.5, 0.7, 0.9)]),
     }
-    comps = {"w": U.Composition(p=0.15, type="weight"), "m": U.Composition(p=0.4, type="molar"), "list": [U.Composition(p=x, type="weight") for x in (0.1, 0.5, 0.9)],
-             "m_same": U.Composition(p=0.15, type="molar"), "pure0": U.Composition(p=0.0, type="molar"), "pure1": U.Composition(p=1.0, type="molar"), "pure1w": U.Composition(p=1.0, type="weight"),
+    comps = {"w": U.Composition(p=0.15 + _NR, type="weight"), "m": U.Composition(p=0.4 + _NR, type="molar"), "list": [U.Composition(p=x, type="weight") for x in (0.1 + _NR, 1.0 / 3.0, 0.9 - _NR)],
+             "m_same": U.Composition(p=0.15 + _NR, type="molar"), "pure0": U.Composition(p=0.0, type="molar"), "pure1": U.Composition(p=1.0, type="molar"), "pure1w": U.Composition(p=1.0, type="weight"),
              "list_pure": [U.Composition(p=x, type="weight") for x in (0.0, 0.5, 1.0)]}
     perms = (U.Permeance(value=2.5e-2), U.Permeance(value=3.0e-5))
+    perms_si = (U.Permeance(value=3.1e-7, units=U.Units.SI), U.Permeance(value=4.2e-10, units=U.Units.SI))
     curve = U.DiffusionCurve(mixture=mix, membrane_name="M", feed_temperature=333.15, feed_compositions=[U.Composition(p=x, type="molar") for x in (0.2, 0.6)],
                              partial_fluxes=[(0.031, 0.0017), (0.052, 0.0009)], permeate_temperature=293.15)
     # the process model of the world is produced with throw-away objects (same values), for the same reason
@@ -56,7 +60,7 @@ def build_world():
     pm = U.Pervaporation(membrane=_mem, mixture=mix).ideal_non_isothermal_process(
         conditions=U.make_conditions(mix, 0.05, 333.15, 50.0, 0.15, "weight", "vac", "none"), number_of_steps=3, delta_hours=0.5)
     return {"mix": mix, "syn": syn, "one": one, "two": two, "molar": molar, "mem": mem, "mem_syn": mem_syn, "pv": pv, "pv_syn": pv_syn, "conds": conds,
-            "meas": meas, "comps": comps, "perms": perms, "curve": curve, "pm": pm}
+            "meas": meas, "comps": comps, "perms": perms, "perms_si": perms_si, "curve": curve, "pm": pm}
 
 
 def _solver(mode_kw, model, who="pv", comp="w"):
@@ -105,6 +109,8 @@ OPS = [
                                                      U.pyvaporation.get_partial_pressures(333.15, w["mix"], w["comps"]["pure1"], "NRTL")]),
     ("solver vac UNIQUAC pure molar", lambda w: w["pv"].calculate_partial_fluxes(feed_temperature=333.15, composition=w["comps"]["pure1"], calculation_type="UNIQUAC")),
     ("membrane permeance with initial permeance", lambda w: w["mem_syn"].get_permeance(338.0, w["syn"].first_component, initial_permeance=w["perms"][0])),
+    ("membrane permeance with initial permeance, stated energy", lambda w: w["mem"].get_permeance(338.0, w["mix"].first_component, initial_permeance=w["perms"][0])),
+    ("membrane permeance with initial permeance in SI, stated energy", lambda w: w["mem"].get_permeance(329.0, w["mix"].second_component, initial_permeance=w["perms_si"][1])),
     ("partial pressures", lambda w: U.pyvaporation.get_partial_pressures(333.15, w["syn"], U.Composition(p=0.3, type="weight"), "UNIQUAC")),
     ("fit", lambda w: U.pyvaporation.fit(w["meas"]["second"], n=1, m=0, include_zero=False, component_index=1)),
     ("fit include_zero", lambda w: U.pyvaporation.fit(w["meas"]["second"], n=1, m=0, include_zero=True, component_index=1)),
